@@ -315,13 +315,22 @@ void mmd_export_link_latex(DString * out, const char * source, token * text, lin
 	print_const("{");
 
 	// If we're printing contents of bracket as text, then ensure we include it all
-	if (text && text->child && text->child->len > 1) {
+	bool widened = false;
+
+	if (text && text->child && text->child->len > 1 && text->child->next) {
 		text->child->next->start--;
 		text->child->next->len++;
+		widened = true;
 	}
 
 	if (text && text->child) {
 		mmd_export_token_tree_latex(out, source, text->child, scratch);
+	}
+
+	if (widened) {
+		// Leave the tree as we found it, so that it can be exported again
+		text->child->next->start++;
+		text->child->next->len--;
 	}
 
 	print_const("}");
